@@ -2,6 +2,7 @@ import GitSizer.Proofs.History
 import GitSizer.Proofs.PathRes.Driver
 import GitSizer.Proofs.PathRes.Ops
 import GitSizer.Gen.Cmds
+import GitSizer.Gen.Flows
 import GitSizer.Proofs.GenStrs
 /-! # C08 — Footnotes name a real witness of each maximum
     Proved here (over the REGENERATED `recordBlob`): after recording any sequence of blobs, the cited
@@ -313,5 +314,32 @@ theorem wEnv_ok : EnvOK ⟨wRepo, wAtom, wHex⟩ := by
     | c + 5 => simp [commitTreeOf, wRepo, Repo.obj] at h
 
 end witnesses
+
+/-! ## "With --names=none no object is cited", over the REGENERATED statements -/
+
+abbrev FEv := String × String × List (String × String)
+def flowOf (file : List (String × List FEv)) (name : String) : List FEv := ((file.find? (fun f => f.1 == name)).map (·.2)).getD []
+
+/-- **--names=none cites nothing, by construction**: the graph takes its resolver from `NewPathResolver(nameStyle)`;
+    for `NameStyleNone` that is `NullPathResolver{false}`, whose `RequestPath` returns nil; every witness field is
+    assigned only by `setPath`, i.e. from `RequestPath`; and both renderers skip an item whose path is nil (the table's
+    `Footnote` returns "" first thing, the JSON object name and description are set only under `path != nil`). -/
+theorem names_none_cites_nothing :
+    ((flowOf Gen.Flows.pathResolver "NewPathResolver").take 3).map (fun e => (e.1, e.2.1)) =
+      [("switch", "nameStyle"), ("case", "NameStyleNone"), ("return", "NullPathResolver{false}")] ∧
+    (flowOf Gen.Flows.pathResolver "NullPathResolver.RequestPath").map (fun e => (e.1, e.2.1, e.2.2.map (·.2))) =
+      [("if", "n.useHash", [""]), ("return", "&Path{OID: oid, objectType: objectType}", ["t"]), ("return", "nil", ["e"])] ∧
+    (flowOf Gen.Flows.sizesFile "setPath").map (fun e => (e.1, e.2.1)) =
+      [("if", "*path != nil"), ("call", "pr.ForgetPath(*path)"), ("assign", "*path = pr.RequestPath(oid, objectType)")] ∧
+    -- ALL assignments of sizes.go: no witness path is assigned except inside setPath
+    (Gen.Flows.sizesFile.flatMap (fun f => (f.2.filter (fun e => e.1 == "assign")).map (fun e => e.2.1))) =
+      ["*path = pr.RequestPath(oid, objectType)", "c, ok := s.ReferenceGroups[group]", "n := counts.Count32(1)", "s.ReferenceGroups[group] = &n"] ∧
+    ((flowOf Gen.Flows.output "item.Footnote").take 2).map (fun e => (e.1, e.2.1)) =
+      [("if", "i.path == nil || i.path.OID == git.NullOID"), ("return", "\"\"")] ∧
+    ((flowOf Gen.Flows.output "item.MarshalJSON").filter (fun e => e.2.2.map (·.2) == ["t"])).map (fun e => e.2.1) =
+      ["stat.ObjectName = i.path.OID.String()", "stat.ObjectDescription = i.path.Path()"] ∧
+    ((flowOf Gen.Flows.output "item.MarshalJSON").filter (fun e => e.1 == "if")).map (fun e => e.2.1) =
+      ["i.path != nil && i.path.OID != git.NullOID"] := by
+  refine ⟨?_, ?_, ?_, ?_, ?_, ?_, ?_⟩ <;> decide +kernel
 
 end GitSizer.C08
